@@ -17,6 +17,12 @@ def Step.isWriterOf (b : Nat) : Step → Bool
   | .take sid | .complete sid | .ctxClose sid | .writerExit sid | .cancel sid | .setGated sid _ => sid = b
   | _ => false
 
+/-- the stream a step is about -/
+def Step.subject : Step → Option Nat
+  | .take sid | .complete sid | .ctxClose sid | .writerExit sid | .cancel sid | .setGated sid _
+  | .readClose sid | .poolRemove sid => some sid
+  | _ => none
+
 /-- work left in a snapshotted call -/
 def Call.todo (c : Call) : Nat := c.groups.flatten.length + c.groups.length
 
